@@ -237,11 +237,13 @@ def run(ctx):
                 else:
                     out.append([ctx.rng.choice(heads)] + [ctx.rng.choice(okwords) for _ in range(ctx.rng.randint(0, 4))])
             return out
-        docs = {}
+        docs, docs_d = {}, {}
         for lvl, nm in enumerate(names):
             if nm in present:
-                docs[nm] = L.render(lay.document([[L.classify(w) for w in c] for c in cmds_for(lvl + 1)]))
-        rootlines = L.render(lay.document([[L.classify(w) for w in c] for c in cmds_for(0)]))
+                docs_d[nm] = lay.document([[L.classify(w) for w in c] for c in cmds_for(lvl + 1)])
+                docs[nm] = L.render(docs_d[nm])
+        root_d = lay.document([[L.classify(w) for w in c] for c in cmds_for(0)])
+        rootlines = L.render(root_d)
         files = {nm: file_text(ls) for nm, ls in docs.items()}
         files["root.flo"] = file_text(rootlines)
         for nm in names:            # a file of an earlier case must not linger
@@ -249,6 +251,10 @@ def run(ctx):
             if nm not in files and os.path.exists(pth):
                 os.remove(pth)
         rec, ok = flolib.record_stream(ctx.work, files, "root.flo")
+        want = expand_py({nm: L.doc_cmds(dd) for nm, dd in docs_d.items()}, L.doc_cmds(root_d))
+        if (rec, ok) != want:
+            _FAILS.append({"files": files, "script": files["root.flo"], "observed_commands": rec,
+                           "expected_commands": want[0], "why": "load stream differs from the documents' commands"})
         ctx.case({"files": files, "stream": rec, "ran_to_end": ok}, nontrivial=any(c[0] == "load" for c in rec),
                  kind="E:load-%s" % ("end" if ok else "stopped"))
         fs = "(fun n => %s None)" % "".join("if leqb Z.eqb n %s then Some %s else " % (L.cstr(nm), L.c_lines(ls))
@@ -280,6 +286,49 @@ def run(ctx):
     ctx.settle(lambda: search(ctx))
 
 
+def expand_py(files_cmds, cmds, depth=8):
+    """documented meaning of load over several files (harness oracle, independent of the model):
+    the loaded file's commands follow the load command; returns (stream, ran_to_end)"""
+    out = []
+    for c in cmds:
+        out.append(c)
+        if c[0] == "load":
+            if len(c) != 2 or c[1] not in files_cmds or depth == 0:
+                return out, False
+            sub, ok = expand_py(files_cmds, files_cmds[c[1]], depth - 1)
+            out += sub
+            if not ok:
+                return out, False
+    return out, True
+
+
+def search_load(ctx, reserved, load_word):
+    """implementation alone, several files: an indented / re-laid-out load must splice the loaded
+    file's commands right after the load command, exactly as in the canonical layout"""
+    import flolib
+    files_cmds = {"a.flo": [["frame", "b"], ["load", "b.flo"], ["go", "c", "if", "x"]],
+                  "b.flo": [["frame", "d"], ["set", "y", "to", "1"]]}
+    root = [["frame", "a"], ["load", "a.flo"], ["frame", "z"], ["put", "5", "into", "x"], ["load", "b.flo"]]
+    want, _ = expand_py(files_cmds, root)
+    best = None
+    for i in range(120):
+        lay = L.Layouter(ctx.rng, reserved, load_word, tabs=(i % 2 == 0), wild=(i % 3 == 0))
+        files = {nm: file_text(L.render(lay.document([[L.classify(w) for w in c] for c in cs], pc=0.5, pb=0.3)))
+                 for nm, cs in files_cmds.items()}
+        files["root.flo"] = file_text(L.render(lay.document([[L.classify(w) for w in c] for c in root], pc=0.5, pb=0.3)))
+        try:
+            rec, ok = flolib.record_stream(ctx.work, files, "root.flo")
+        except Exception as ex:
+            rec, ok = [["<%s>" % type(ex).__name__]], False
+        if rec != want or not ok:
+            size = sum(len(t) for t in files.values())
+            if best is None or size < best[0]:
+                best = (size, {"files": files, "script": files["root.flo"], "observed_commands": rec,
+                               "expected_commands": want, "ran_to_end": ok,
+                               "why": "dispatch stream over loaded files differs from the canonical layout's"})
+    return best[1] if best else None
+
+
 def search(ctx):
     """the implementation alone against the property's executable statement: a grammar layout of
     a command list must dispatch exactly that command list (and build the same house)"""
@@ -309,9 +358,14 @@ def search(ctx):
                     best = {"script": txt, "canonical_script": file_text(L.render(L.canonical(toks))),
                             "observed_commands": rec, "expected_commands": cmds}
     if best is None:
+        try:
+            best = search_load(ctx, reserved, load_word)
+        except NameError:
+            best = search_load(ctx, list(translate.DOCUMENTED), "load")
+    if best is None:
         return None
     best = shrink(ctx, best)
-    best["contradicts"] = "C16.Props.layout_invariant"
+    best["contradicts"] = "C16.Props.load_layout_invariant" if "files" in best else "C16.Props.layout_invariant"
     best["key"] = ("layout-last-continuation-line-indent" if best.get("why", "").startswith("tab indentation")
                    else "layout-changes-commands")
     return best
